@@ -2,12 +2,14 @@
 //! fault-injecting sinks/sources for every public writer/reader (C34).
 mod transport;
 mod c26;
+mod c34;
 use vhc::*;
 
 fn main() {
     run_main(
         |prop, ctx| match prop {
             "C26" => Some(c26::cases(ctx)),
+            "C34" => Some(c34::cases(ctx)),
             _ => None,
         },
         |_prop, _out| false,
